@@ -23,6 +23,15 @@ CHECKS = {
         design_ref="DESIGN.md section 3, C02",
         note="Fingerprints miss a wrong factor with probability ~5e-10 per event; units with irrational chains (fractional powers of non-trivial "
              "scales) are compared in float only; an edited constant in default_en.txt is invisible here by construction (C20's job)."),
+    "C03": dict(
+        technique="TLA+ spec (Quantity, Offset) model-checked with TLC for covariance laws; every TLC state replayed on real quantities in plain/reflected/in-place/ndarray form; random expression trees over the bundled registry validated by a TLC trace spec in physical (fingerprint) space",
+        text="TLC checks for every operator form of PlainQuantity (transcribed branch by branch) over a pool of 55 quantities x 3 bare numbers that the "
+             "result is invariant, as a physical value or error kind, under re-expression of each operand in every alternative compatible unit, and the "
+             "dimension / bare-number / divmod / reflected-form laws; all 43k states are executed on Fraction (exact), Decimal and float registries, "
+             "including in-place and ndarray twins with operand-immutability checks; random trees of depth <= 4 over the bundled registry are "
+             "recomputed by Trace_C03 from the independent reader's table.",
+        design_ref="DESIGN.md section 3, C03",
+        note="Offset units are C06's; // % comparisons are checked only on generated registries (not ring operations, no fingerprints)."),
     "C04": dict(
         technique="TLA+ spec (UnitAlgebra, LinAlg) model-checked with TLC; TLC-generated cases replayed into pint; recorded operations validated by a TLC trace spec",
         text="TLC checks exhaustively (3 names, exponents -2..2 and +-1/2, all pairs, all powers, triples) that the operational model of "
